@@ -7,7 +7,7 @@
      nodes : ';'-separated, per node  <flags>/<dkey>/<succ>   flags: f foreign, m manifest, - none
      d0    : ','-separated node ids initially in the destination, or '-'
      trace : ','-separated event tokens or '-': the tokens of ml/c01_main.ml plus
-             XX.n  SX.n  PX.n.ref.stored  QK  QX  CN
+             XX.n  SX.n  PX.n.ref.stored  TX.n.set  QK  QX  CN
    output: <id> ACC ret=<1|0|-> tag=<n|-> dst=<ids> closed=<1|0>
              closed = the destination was link-closed after EVERY event of the trace (self-check of
              the model-side predicate; the theorem C02_closed_always says it is always 1)
@@ -41,6 +41,7 @@ let event_of tok =
   | ["XX"; n] -> ExX (nn n)
   | ["SX"; n] -> SFX (nn n)
   | ["PX"; n; r; s] -> PuX (nn n, bb r, bb s)
+  | ["TX"; n; s] -> TagX (nn n, bb s)
   | ["QK"] -> ProOk
   | ["QX"] -> ProX
   | ["CN"] -> Cancel
